@@ -209,6 +209,23 @@ def run_model(case_lines, points, jobs=8):
             res.update(out)
     return res
 
+FRAG_BIN = os.path.join(LEAN, '.lake', 'build', 'bin', 'pxfrag')
+
+def run_frag(case_lines, jobs=8):
+    """per case: does it satisfy the decidable hypotheses of the whole-run theorems (see lean/Driver/Frag.lean)"""
+    from concurrent.futures import ThreadPoolExecutor
+    res = {}
+    if not case_lines or not os.path.exists(FRAG_BIN):
+        return res
+    size = max(1, (len(case_lines) + jobs - 1) // jobs)
+    def work(chunk):
+        p = _run_lines([FRAG_BIN], chunk, timeout=1800)
+        return parse_obs(p.stdout)
+    with ThreadPoolExecutor(max_workers=jobs) as ex:
+        for out in ex.map(work, list(chunks(case_lines, size))):
+            res.update(out)
+    return res
+
 # ---------------------------------------------------------------- findings
 
 class Finding:
